@@ -63,6 +63,14 @@ impl Drop for MuxStream {
     /// Close the stream by instructing the mux task to send a [`Reset`](crate::frame::OpCode::Reset) frame if
     /// the stream is still open. The associated port will be freed for reuse.
     fn drop(&mut self) {
+        // Let go of our handle on the shared `finish_sent` flag first. The notification
+        // below carries only the flow ID, which may have been reused by a newer stream
+        // (e.g. the peer's `Reset` frees it while we are still held): the task recognizes
+        // the slot of *this* stream by nobody else holding its flag any more.
+        drop(core::mem::replace(
+            &mut self.finish_sent,
+            Arc::new(AtomicBool::new(true)),
+        ));
         // Notify the task that this port is no longer in use
         self.dropped_flows_tx
             .send(self.flow_id)
